@@ -147,10 +147,19 @@ int main(void)
 			size_t n = unhex(line + off, buf);
 			rng_s = seed;
 			lzma_options_delta od = { .type = LZMA_DELTA_TYPE_BYTE, .dist = dist };
-			if (enc) {
-				lzma_filter_info fi[2] = { { .id = LZMA_FILTER_DELTA, .init = NULL, .options = &od }, { .id = LZMA_VLI_UNKNOWN, .init = NULL, .options = NULL } };
+			{
+				// streaming coder (encoder, or decoder in front of a pass-through source); with seed bit 2 the coder has
+				// been used for an earlier short stream and initialised again without being freed
+				lzma_filter_info fi[3] = { { .id = LZMA_FILTER_DELTA, .init = NULL, .options = &od }, { .id = 0, .init = &mock_init, .options = NULL }, { .id = LZMA_VLI_UNKNOWN, .init = NULL, .options = NULL } };
 				lzma_next_coder next = LZMA_NEXT_CODER_INIT;
-				lzma_ret ret = lzma_delta_encoder_init(&next, NULL, fi);
+				lzma_ret ret = enc ? lzma_delta_encoder_init(&next, NULL, fi) : lzma_delta_decoder_init(&next, NULL, fi);
+				if (ret == LZMA_OK && (seed & 4)) {
+					uint8_t prior[40], tmp[64]; size_t k = 1 + rnd() % 40, i2 = 0, o2 = 0;
+					for (size_t q = 0; q < k; q++) prior[q] = (uint8_t)(1 + rnd() % 255);
+					lzma_options_delta od0 = od; if (rnd() % 2) od0.dist = 1 + rnd() % 256;
+					for (int g = 0; g < 4; g++) { lzma_ret pr = next.code(next.coder, NULL, prior, &i2, k, tmp, &o2, sizeof tmp, (rnd() & 1) ? LZMA_FINISH : LZMA_RUN); if (pr != LZMA_OK) break; }
+					ret = enc ? lzma_delta_encoder_init(&next, NULL, fi) : lzma_delta_decoder_init(&next, NULL, fi);
+				}
 				size_t ip = 0, op = 0; int guard = 0;
 				while (ret == LZMA_OK && guard++ < 4000000) {
 					size_t il = rnd() % 17, ol = rnd() % 17;
@@ -166,16 +175,6 @@ int main(void)
 				if (ret != LZMA_STREAM_END) printf("ERR%d ", (int)ret);
 				puthex(outb, op); printf("\n");
 				if (next.end) next.end(next.coder, NULL); else lzma_free(next.coder, NULL);
-			} else {
-				lzma_delta_coder dc; memset(&dc, 0, sizeof dc); dc.distance = dist;
-				size_t p = 0;
-				while (p < n) {
-					size_t l = 1 + rnd() % 17; if (seed % 3 == 0) l = n; if (l > n - p) l = n - p;
-					uint8_t *b = malloc(l); memcpy(b, buf + p, l);
-					delta_decode_buffer(&dc, b, l);
-					memcpy(outb + p, b, l); free(b); p += l;
-				}
-				puthex(outb, n); printf("\n");
 			}
 		} else printf("ERR\n");
 		fflush(stdout);
